@@ -243,6 +243,19 @@ class ArrPart(Arr):
         self.src.set(idx, new, node)
 
 
+def may_be_complex(n, _memo=None):
+    """the expression may have a non-zero imaginary part: it contains the imaginary unit or a complex atom outside real / imag / abs"""
+    memo = {} if _memo is None else _memo
+    if n.uid in memo: return memo[n.uid]
+    if n.op == 'I': r = True
+    elif n.op == 'atom': r = n.val[1] == 'complex'
+    elif n.op == 'fn' and n.val in ('real', 'imag', 'abs', 'abs2'): r = False
+    elif n.op == 'cmp': r = False
+    else: r = any(may_be_complex(a_, memo) for a_ in n.args)
+    memo[n.uid] = r
+    return r
+
+
 def arr_len(a):
     """length of a 1-d array of known shape, else None"""
     sh = getattr(a, 'shape', None)
@@ -1028,8 +1041,17 @@ class Interp:
             if a == 'real': return X.fn('real', b)
             if a == 'imag': return X.fn('imag', b)
             if a in ('conjugate', 'conj'): return Builtin('conj_of:' + str(b.uid))
+            if a == 'ndim': return 0              # a number (what a 0-d array read back from disk holds)
+            if a == 'shape': return ()
+            if a == 'size': return 1
+            if a == 'dtype': return Opaque('dtype:complex128' if may_be_complex(b) else 'dtype:float64')
+            if a == 'item': return (lambda *a_, **k_: b)
         if isinstance(base, dict) and a in ('items', 'keys', 'values', 'get', 'pop', 'update', 'setdefault', 'copy'):
             return ('dictmethod', base, a)
+        if isinstance(base, dict) and getattr(base, 'is_npz', False) and a in ('files', 'close', 'f'):
+            # what numpy.load hands back for an .npz archive: a mapping with the list of its member names
+            if a == 'files': return list(base.keys())
+            if a == 'close': return (lambda *a_, **k_: None)
         if isinstance(base, list) and a in ('append',):
             return ('listmethod', base, a)
         if isinstance(base, Arr) and a == 'shape':
@@ -1786,6 +1808,21 @@ class Interp:
             if isinstance(a, (tuple, list, dict, str, set, frozenset, range)): return len(a)
             if isinstance(a, Arr) and a.shape: return a.shape[0]
             raise AnalysisError('len of symbolic object')
+        if nm == 'issubdtype' and len(args) == 2:
+            d0 = args[0].name if isinstance(args[0], Opaque) else str(getattr(args[0], 'name', args[0]))
+            k0 = str(getattr(args[1], 'name', args[1])).split('.')[-1]
+            if d0.startswith('dtype:'):
+                kind = d0.split(':')[1]
+                table = {'number': True, 'inexact': True, 'floating': kind.startswith('float'), 'complexfloating': kind.startswith('complex'), 'integer': False, 'bool_': False,
+                         'float64': kind == 'float64', 'complex128': kind == 'complex128'}
+                if k0 in table: return table[k0]
+            raise AnalysisError(f'np.issubdtype({d0}, {k0}) is not modelled')
+        if nm in ('float', 'float64') and args and isinstance(unbox(args[0]), Node) and may_be_complex(unbox(args[0])):
+            # float() raises TypeError for a complex number; np.float64(z) keeps the real part (and only warns)
+            if nm == 'float':
+                raise RaiseSignal(ast.copy_location(ast.Raise(exc=ast.Name(id='TypeError', ctx=ast.Load()), cause=None), e) if e is not None else ast.Raise(exc=ast.Name(id='TypeError', ctx=ast.Load()), cause=None),
+                                  "TypeError: float() argument must be a string or a real number, not 'complex'")
+            return X.fn('real', unbox(args[0]))
         if nm in ('float', 'complex128', 'float64', 'asarray', 'array', 'ascontiguousarray', 'copy', '__cast__'):
             if nm == '__cast__':
                 return Builtin('__cast__')
